@@ -315,5 +315,9 @@ def run_case(case):
                     off += len(cl_k)
     for a, sn in zip(arrays, snaps):
         core.expect_unchanged(a, sn, "join operand", sig)
+    # the container handed to the library is an argument too: still the same objects in the same places
+    members = list(cont.values()) if isinstance(cont, dict) else list(cont)
+    check(len(members) == len(arrays) and all(x is y for x, y in zip(members, arrays)), "container-argument-modified",
+          {"what": "%s(%s of %d arrays, %s)" % (func, type(cont).__name__, len(arrays), kw), "now": [core.brief(x) for x in members]}, sig)
     nontrivial = n >= 2 and (status == "differs" or dimorder_differs or align)
     return {"classes": sorted(cl), "nontrivial": nontrivial}
